@@ -303,6 +303,51 @@ func init() {
 					}
 				}
 			}
+			if ss, ok := s[idx].(symstr); ok {
+				// a query with symbolic parts: split at the (concrete) separators;
+				// a symbolic byte could be a separator or an escape itself, so
+				// only decimal tokens (digits) are accepted as symbolic parts
+				var key, val []value
+				inVal := false
+				flush := func() {
+					if len(key) > 0 {
+						k := mkstr(key)
+						if ks, ok := k.(string); ok {
+							l, _ := out[ks].([]value)
+							out[ks] = append(l, mkstr(val))
+						} else {
+							panic(engineError{"URL.Query: symbolic parameter name"})
+						}
+					}
+					key, val, inVal = nil, nil, false
+				}
+				for _, b := range ss.b {
+					switch c := b.(type) {
+					case uint8:
+						switch {
+						case c == '&':
+							flush()
+						case c == '=' && !inVal:
+							inVal = true
+						case c == '%' || c == '+' || c == ';':
+							panic(engineError{"URL.Query: escapes next to symbolic parts are not modelled"})
+						case inVal:
+							val = append(val, c)
+						default:
+							key = append(key, c)
+						}
+					case decTok:
+						if !inVal {
+							panic(engineError{"URL.Query: symbolic parameter name"})
+						}
+						val = append(val, c)
+					default:
+						panic(engineError{"URL.Query: symbolic byte in a query string"})
+					}
+				}
+				flush()
+				return out
+			}
 			raw, _ := s[idx].(string)
 			vals, err := url.ParseQuery(raw)
 			if err == nil {
@@ -315,6 +360,14 @@ func init() {
 				}
 			}
 			return out
+		},
+		"(net/url.Values).Has": func(fr *frame, a []value) value {
+			m := headerMap(a[0])
+			if m == nil {
+				return false
+			}
+			_, ok := m[a[1]].([]value)
+			return ok
 		},
 		"(net/url.Values).Get": func(fr *frame, a []value) value {
 			m := headerMap(a[0])
